@@ -329,7 +329,7 @@ static void set_ref_frame_info(EbDecHandle *dec_handle_ptr, int frame_idx, RefFr
     dec_handle_ptr->remapped_ref_idx[frame_idx] = ref_info->map_idx;
 }
 
-void svt_set_frame_refs(EbDecHandle *dec_handle_ptr, int32_t lst_map_idx, int32_t gld_map_idx) {
+EbErrorType svt_set_frame_refs(EbDecHandle *dec_handle_ptr, int32_t lst_map_idx, int32_t gld_map_idx) {
     int32_t lst_frame_sort_idx = -1;
     int32_t gld_frame_sort_idx = -1;
 
@@ -374,10 +374,12 @@ void svt_set_frame_refs(EbDecHandle *dec_handle_ptr, int32_t lst_map_idx, int32_
 
     // Confirm both LAST_FRAME and GOLDEN_FRAME are valid forward reference
     // frames.
+    // an empty slot, or a look-ahead frame, named as LAST or GOLDEN: the stream is corrupt (and with every slot empty the
+    // assignments below would walk past the sorted list)
     if (lst_frame_sort_idx == -1 || lst_frame_sort_idx >= cur_frame_sort_idx)
-        assert(0); //"Inter frame requests a look-ahead frame as LAST");
+        return EB_Corrupt_Frame;
     if (gld_frame_sort_idx == -1 || gld_frame_sort_idx >= cur_frame_sort_idx)
-        assert(0); //"Inter frame requests a look-ahead frame as GOLDEN");
+        return EB_Corrupt_Frame;
 
     // Sort ref frames based on their frame_offset values.
     qsort(ref_frame_info, REF_FRAMES, sizeof(RefFrameInfo), compare_ref_frame_info);
@@ -485,6 +487,7 @@ void svt_set_frame_refs(EbDecHandle *dec_handle_ptr, int32_t lst_map_idx, int32_
     }
 
     for (int32_t i = 0; i < INTER_REFS_PER_FRAME; i++) assert(ref_flag_list[i] == 1);
+    return EB_ErrorNone;
 }
 
 void svt_setup_frame_buf_refs(EbDecHandle *dec_handle_ptr) {
